@@ -274,7 +274,7 @@ class Pool:
 # ------------------------------------------------------------------ spec helpers
 
 def mkspec(args, files=None, stdin=None, arrivals=None, sched=None, knobs=None, env=None, links=None, mode="sim",
-           chunk=None, faults=None, crash_op=None, snapshot=False, log_ops=False, tail=False, fd_limit=0, rfd_limit=0,
+           chunk=None, faults=None, crash_op=None, snapshot=False, log_ops=False, tail=False, fd_limit=0, rfd_limit=0, snap_at_exit=False,
            rtseed=1, max_steps=400000, max_ticks=30000000):
     spec = {"mode": mode, "args": list(args), "env": dict(env or {}), "files": {}, "snapshot": snapshot,
             "log_ops": log_ops, "tail": tail, "rtseed": rtseed}
@@ -304,6 +304,8 @@ def mkspec(args, files=None, stdin=None, arrivals=None, sched=None, knobs=None, 
         spec["fd_limit"] = fd_limit
     if rfd_limit:
         spec["rfd_limit"] = rfd_limit
+    if snap_at_exit:
+        spec["snap_at_exit"] = True
     return spec
 
 
